@@ -134,7 +134,9 @@ def h08_literals(s, flag, token, low):
     else:
         outb = render([Node(AST_node_type=18, AST_boolean_node_boolean=flag)])
     assert outb == ("TRUE" if flag else "FALSE")
-    outn = render([Node(AST_node_type=17, AST_number_node_decimal_high=0x3040000000000000, AST_number_node_decimal_low=low)])
+    # an integer literal as Numbers stores it: the exact integer in decimal_low, the nearest double in the number field
+    outn = render([Node(AST_node_type=17, AST_number_node_decimal_high=0x3040000000000000, AST_number_node_decimal_low=low,
+                        AST_number_node_number=float(low))])
     assert outn == str(low)
 
 
